@@ -236,4 +236,384 @@ Proof.
   apply HP. now apply (i_from _ _ _ I).
 Qed.
 End Bucket.
+
+Lemma tomb_in_app P fb c x : tomb_in (P ++ [fb]) c x = tomb_in P c x || fb_targets TTombstone c x fb.
+Proof. unfold tomb_in. rewrite existsb_app. simpl. now rewrite orb_false_r. Qed.
+
+Lemma fb_targets_self c i h t x : fb_targets t c x (c, i, h) = otype_eqb (h_typ h) t && opt_eqb (h_assoc h) (Some x).
+Proof. unfold fb_targets, fb_c, fb_h. simpl. now rewrite N.eqb_refl. Qed.
+
+Lemma inv_other c P b fb : inv c P b -> fb_c fb <> c -> inv c (P ++ [fb]) b.
+Proof.
+  intros I Hne. constructor; try apply I.
+  - intros i en Hin. apply in_or_app. left. now apply (i_from _ _ _ I).
+  - intros i h Hin Hc. apply in_app_or in Hin as [Hin|[E|[]]].
+    + now apply (i_stored _ _ _ I).
+    + subst fb. exfalso. now apply Hne.
+  - intros x. rewrite tomb_in_app. rewrite (i_garb _ _ _ I x).
+    unfold fb_targets. replace (fb_c fb =? c) with false by (symmetry; now apply N.eqb_neq).
+    simpl. now rewrite orb_false_r.
+Qed.
+
+Lemma inv_skip c P b i h : inv c P b -> h_typ h <> TTombstone -> h_typ h <> TLock -> tomb_in B c i = true ->
+  inv c (P ++ [(c, i, h)]) b.
+Proof.
+  intros I H1 H2 HT. constructor; try apply I.
+  - intros i' en Hin. apply in_or_app. left. now apply (i_from _ _ _ I).
+  - intros i' h' Hin Hc. apply in_app_or in Hin as [Hin|[E|[]]].
+    + now apply (i_stored _ _ _ I).
+    + inversion E; subst. destruct Hc as [Hc|[Hc|Hc]]; congruence.
+  - intros x. rewrite tomb_in_app, fb_targets_self, (i_garb _ _ _ I x).
+    replace (otype_eqb (h_typ h) TTombstone) with false.
+    + simpl. now rewrite orb_false_r.
+    + symmetry. destruct (otype_eqb (h_typ h) TTombstone) eqn:E; [|reflexivity]. apply otype_eqb_eq in E. congruence.
+Qed.
+
+Lemma inv_store c P b b' i h en :
+  inv c P b -> (forall h', ~ In (c, i, h') P) -> e_hdr en = h ->
+  wfc b' -> cgc b' = false -> objs b' = sm_put i en (objs b) ->
+  (forall y, sm_get y (garb b') = if tomb_in (P ++ [(c, i, h)]) c y then Some MDefault else None) ->
+  inv c (P ++ [(c, i, h)]) b'.
+Proof.
+  intros I Hfresh He W Hc Ho Hg. constructor; auto.
+  - intros i' en' Hin. rewrite Ho in Hin. apply sm_put_in in Hin as [E|Hin].
+    + inversion E; subst. apply in_or_app. right. now left.
+    + apply in_or_app. left. now apply (i_from _ _ _ I).
+  - intros i' h' Hin Hcond. rewrite Ho. apply in_app_or in Hin as [Hin|[E|[]]].
+    + destruct (i_stored _ _ _ I i' h' Hin Hcond) as [en' [Hs He']]. exists en'. split; auto.
+      apply sm_put_in_old; auto.
+      * apply (i_wf _ _ _ I).
+      * intros ->. now apply (Hfresh h').
+    + inversion E; subst. exists en. split; auto. apply sm_put_in_new.
+Qed.
+
+Lemma put_metadata_objs c2 n i h ph :
+  exists en, e_hdr en = h /\ objs (put_metadata (set_cnt c2 n) (Obj i h None) ph) = sm_put i en (objs c2).
+Proof.
+  unfold put_metadata. simpl. destruct (get_entry (set_cnt c2 n) i); eexists; split; try reflexivity; reflexivity.
+Qed.
+
+Lemma put_metadata_garb c2 n o ph : garb (put_metadata (set_cnt c2 n) o ph) = garb c2.
+Proof. unfold put_metadata. destruct (get_entry (set_cnt c2 n) (o_id o)); reflexivity. Qed.
+Lemma put_metadata_cgc c2 n o ph : cgc (put_metadata (set_cnt c2 n) o ph) = cgc c2.
+Proof. unfold put_metadata. destruct (get_entry (set_cnt c2 n) (o_id o)); reflexivity. Qed.
+
+Local Opaque collect_children cc_fuel object_status object_locked in_garbage.
+
+Section Step.
+Variables (c : cid) (P : list fblob) (b : cstate) (e : N) (i : oid) (h : hdr).
+Hypothesis HP : incl P B.
+Hypothesis I : inv c P b.
+Hypothesis Hin : In (c, i, h) B.
+Hypothesis Hfresh : forall h', ~ In (c, i, h') P.
+
+Lemma step_unstored : stored b i = false.
+Proof.
+  unfold stored, sm_mem. destruct (sm_get i (objs b)) as [en|] eqn:E; [|reflexivity].
+  apply sm_get_some_in in E. apply (i_from _ _ _ I) in E. exfalso. eapply Hfresh; eauto.
+Qed.
+
+Lemma step_flat : flat_hdr h = true.
+Proof. apply (Hflat _ Hin). Qed.
+
+(* a tombstone is always indexed and marks its target *)
+Lemma ha_tomb d0 x : h_typ h = TTombstone -> h_assoc h = Some x ->
+  exists d', handle_assoc e b d0 (Obj i h None) = (set_garb b (sm_put x MDefault (garb b)), d', EOk).
+Proof.
+  intros Et Ea.
+  assert (TB : tomb_in B c x = true) by (apply tomb_in_iff; eauto).
+  destruct (tomb_target c x TB) as [NL NT].
+  assert (LL : object_locked e b x = false).
+  { rewrite (locked_spec b e x (i_wf _ _ _ I)). destruct (live_lock b e x) eqn:L; [|reflexivity].
+    apply (inv_live_lock_in c P b HP I) in L. congruence. }
+  unfold handle_assoc. simpl o_hdr. rewrite Ea, Et.
+  assert (K : exists d', (if object_locked e b x then (b, d0, ELocked)
+                 else let ids := collect_children (cc_fuel b) b x ++ [x] in
+                      let '(c', inh, pay) := ts_loop e b ids 0%Z (d_payload d0) in
+                      (c', mkDiff (d_phy d0 + 1) (d_root d0) (d_ts d0 + 1) (d_lock d0) (d_link d0) (d_gc d0 + inh) pay, EOk))
+                = (set_garb b (sm_put x MDefault (garb b)), d', EOk)).
+  { rewrite LL. cbv zeta. rewrite (flat_collect b x (inv_flatb c P b HP I)). simpl.
+    destruct (get_raw_ok b x); eexists; reflexivity. }
+  destruct (type_of b x) as [t|] eqn:Ety; [|exact K].
+  destruct (inv_type_of c P b HP I x t Ety) as [h' [Hin' Ht']]. destruct (NT h' Hin') as [N1 N2].
+  destruct t; try congruence; exact K.
+Qed.
+
+(* a lock is always indexed: its target carries no tombstone *)
+Lemma ha_lock d0 x : h_typ h = TLock -> h_assoc h = Some x ->
+  exists d', handle_assoc e b d0 (Obj i h None) = (b, d', EOk).
+Proof.
+  intros Et Ea.
+  assert (LB : lock_in B c x = true) by (apply lock_in_iff; eauto).
+  destruct (lock_target c x LB) as [NT NR].
+  assert (TP : tomb_in P c x = false).
+  { destruct (tomb_in P c x) eqn:E; [|reflexivity]. apply tomb_in_incl in E; auto. congruence. }
+  assert (W := i_wf _ _ _ I).
+  assert (G : in_garbage b x = st_available).
+  { rewrite (in_garbage_spec b x W), (inv_tombstoned c P b I), (inv_marked c P b I), TP. reflexivity. }
+  assert (S : (object_status b x e =? st_tombstoned) || (in_garbage b x =? st_tombstoned) = false).
+  { rewrite (flat_object_status b x e W (inv_flatb c P b HP I)). unfold status_direct. rewrite G.
+    destruct (is_expired b x e); [destruct (object_locked e b x); reflexivity|]. reflexivity. }
+  unfold handle_assoc. simpl o_hdr. rewrite Ea, Et.
+  destruct (type_of b x) as [t|] eqn:Ety.
+  - destruct (inv_type_of c P b HP I x t Ety) as [h' [Hin' Ht']]. rewrite (NR h' Hin') in Ht'. subst t.
+    rewrite S. eexists; reflexivity.
+  - rewrite S. eexists; reflexivity.
+Qed.
+
+Theorem step_bucket :
+  exists b' d err, put_top e b (Obj i h None) = (b', d, err) /\
+                   (err = EOk \/ (err = EAlreadyRemoved /\ b' = b)) /\ inv c (P ++ [(c, i, h)]) b'.
+Proof.
+  assert (W := i_wf _ _ _ I). assert (F := inv_flatb c P b HP I).
+  assert (FH := step_flat). unfold flat_hdr in FH. apply andb_true_iff in FH as [FS FA].
+  unfold put_top. rewrite put_obj_nopar. rewrite (i_cgc _ _ _ I).
+  cbv zeta. rewrite (unstored_status b i e W F step_unstored).
+  rewrite (inv_tombstoned c P b I), (inv_marked c P b I).
+  destruct (tomb_in P c i) eqn:TP.
+  - (* read after its tombstone: skipped *)
+    assert (TB : tomb_in B c i = true) by (apply (tomb_in_incl c P HP); exact TP).
+    destruct (tomb_target c i TB) as [NL NT]. destruct (NT h Hin) as [N1 N2].
+    assert (LL : live_lock b e i = false).
+    { destruct (live_lock b e i) eqn:L; [|reflexivity]. apply (inv_live_lock_in c P b HP I) in L. congruence. }
+    rewrite LL. simpl. exists b, diff0, EAlreadyRemoved. split; [reflexivity|]. split; [right; auto|].
+    now apply inv_skip.
+  - replace (st_available =? st_tombstoned) with false by reflexivity.
+    replace (st_available =? st_expired) with false by reflexivity.
+    rewrite step_unstored. rewrite andb_false_r.
+    destruct (h_typ h) eqn:Et.
+    + (* regular *)
+      destruct (put_metadata_objs b (apply_diff (cnt b) (mkDiff (0 + 1) (if has_parent_hdr (Obj i h None) then 0 else 0 + 1) 0 0 0 0 (Z.of_N (h_size h)))) i h true) as [en [He Ho]].
+      eexists _, _, EOk. split; [reflexivity|]. split; [left; reflexivity|].
+      eapply inv_store; eauto.
+      * apply wfc_put_metadata. now apply wfc_set_cnt.
+      * rewrite put_metadata_cgc. apply (i_cgc _ _ _ I).
+      * intros y. rewrite put_metadata_garb. simpl. rewrite tomb_in_app, fb_targets_self, Et. simpl.
+        rewrite orb_false_r. apply (i_garb _ _ _ I).
+    + (* tombstone *)
+      destruct (h_assoc h) as [x|] eqn:Ea; [|discriminate].
+      destruct (ha_tomb (mkDiff 0 0 0 0 0 0 (Z.of_N (h_size h))) x Et Ea) as [d' Hh]. rewrite Hh.
+      set (b1 := set_garb b (sm_put x MDefault (garb b))).
+      destruct (put_metadata_objs b1 (apply_diff (cnt b1) d') i h true) as [en [He Ho]].
+      eexists _, _, EOk. split; [reflexivity|]. split; [left; reflexivity|].
+      eapply inv_store; eauto.
+      * apply wfc_put_metadata. apply wfc_set_cnt. unfold b1. now apply wfc_put_garb.
+      * rewrite put_metadata_cgc. apply (i_cgc _ _ _ I).
+      * intros y. rewrite put_metadata_garb. unfold b1. simpl. rewrite tomb_in_app, fb_targets_self, Et, Ea. simpl.
+        destruct (N.eq_dec y x) as [->|Hne].
+        -- rewrite sm_get_put_eq, N.eqb_refl, orb_true_r. reflexivity.
+        -- rewrite (sm_get_put_ne x y MDefault (garb b) Hne). replace (x =? y) with false by (symmetry; apply N.eqb_neq; congruence).
+           rewrite orb_false_r. apply (i_garb _ _ _ I).
+    + (* lock *)
+      destruct (h_assoc h) as [x|] eqn:Ea; [|discriminate].
+      destruct (ha_lock (mkDiff 0 0 0 0 0 0 (Z.of_N (h_size h))) x Et Ea) as [d' Hh]. rewrite Hh.
+      destruct (put_metadata_objs b (apply_diff (cnt b) d') i h true) as [en [He Ho]].
+      eexists _, _, EOk. split; [reflexivity|]. split; [left; reflexivity|].
+      eapply inv_store; eauto.
+      * apply wfc_put_metadata. now apply wfc_set_cnt.
+      * rewrite put_metadata_cgc. apply (i_cgc _ _ _ I).
+      * intros y. rewrite put_metadata_garb. simpl. rewrite tomb_in_app, fb_targets_self, Et. simpl.
+        rewrite orb_false_r. apply (i_garb _ _ _ I).
+    + (* link *)
+      destruct (put_metadata_objs b (apply_diff (cnt b) (mkDiff (0 + 1) 0 0 0 (0 + 1) 0 (Z.of_N (h_size h)))) i h true) as [en [He Ho]].
+      eexists _, _, EOk. split; [reflexivity|]. split; [left; reflexivity|].
+      eapply inv_store; eauto.
+      * apply wfc_put_metadata. now apply wfc_set_cnt.
+      * rewrite put_metadata_cgc. apply (i_cgc _ _ _ I).
+      * intros y. rewrite put_metadata_garb. simpl. rewrite tomb_in_app, fb_targets_self, Et. simpl.
+        rewrite orb_false_r. apply (i_garb _ _ _ I).
+Qed.
+End Step.
+
+(* ---------------------------------------------------------------- the whole state *)
+Definition addr (fb : fblob) : cid * oid := (fb_c fb, fb_i fb).
+
+Definition sinv (P : list fblob) (s : state) : Prop := forall c, inv c P (bucket_or_new s c).
+
+Lemma sinv_init e : sinv [] (reset_state e).
+Proof.
+  intros c. unfold bucket_or_new, bucket, reset_state. simpl. constructor.
+  - apply wfc_cstate0.
+  - reflexivity.
+  - intros i en [].
+  - intros i h [].
+  - intros x. reflexivity.
+Qed.
+
+Lemma bon_set_eq s c b : bucket_or_new (set_bucket s c b) c = b.
+Proof. unfold bucket_or_new, bucket, set_bucket. simpl. now rewrite sm_get_put_eq. Qed.
+Lemma bon_set_ne s c c' b : c' <> c -> bucket_or_new (set_bucket s c b) c' = bucket_or_new s c'.
+Proof. intros H. unfold bucket_or_new, bucket, set_bucket. simpl. now rewrite (sm_get_put_ne c c' b (cnrs s) H). Qed.
+
+Lemma skip_state s c c' :
+  bucket_or_new (match bucket s c, objs (bucket_or_new s c) with
+                 | None, [] => s
+                 | _, _ => set_bucket s c (bucket_or_new s c)
+                 end) c' = bucket_or_new s c'.
+Proof.
+  assert (G : bucket_or_new (set_bucket s c (bucket_or_new s c)) c' = bucket_or_new s c').
+  { destruct (N.eq_dec c' c) as [->|Hne]; [apply bon_set_eq | now apply bon_set_ne]. }
+  destruct (bucket s c); [exact G|]. destruct (objs (bucket_or_new s c)); [reflexivity|exact G].
+Qed.
+
+Lemma skip_epoch s c :
+  epoch (match bucket s c, objs (bucket_or_new s c) with
+         | None, [] => s
+         | _, _ => set_bucket s c (bucket_or_new s c)
+         end) = epoch s.
+Proof. destruct (bucket s c); [reflexivity|]. destruct (objs (bucket_or_new s c)); reflexivity. Qed.
+
+Lemma sinv_step P s c i h b' :
+  sinv P s -> inv c (P ++ [(c, i, h)]) b' ->
+  forall s1, (forall c', bucket_or_new s1 c' = if N.eq_dec c' c then b' else bucket_or_new s c') ->
+  sinv (P ++ [(c, i, h)]) s1.
+Proof.
+  intros S I s1 H c'. rewrite H. destruct (N.eq_dec c' c) as [->|Hne]; [exact I|].
+  apply inv_other; [apply S|]. unfold fb_c. simpl. congruence.
+Qed.
+
+Lemma nodup_fresh P fb R : NoDup (map addr (P ++ fb :: R)) -> forall h', ~ In (fb_c fb, fb_i fb, h') P.
+Proof.
+  intros N h' Hin. rewrite map_app in N. simpl in N. apply NoDup_remove_2 in N. apply N.
+  apply in_or_app. left. apply in_map_iff. exists (fb_c fb, fb_i fb, h'). split; [reflexivity|exact Hin].
+Qed.
+
+Lemma batch_flat R : forall P s,
+  sinv P s -> incl (P ++ R) B -> NoDup (map addr (P ++ R)) ->
+  exists s', batch_loop s (map to_blob R) = inl s' /\ sinv (P ++ R) s' /\ epoch s' = epoch s.
+Proof.
+  induction R as [|fb R IH]; intros P s S Hincl Hnd'.
+  - exists s. rewrite app_nil_r. simpl. auto.
+  - destruct fb as [[c i] h].
+    assert (HP : incl P B) by (intros x Hx; apply Hincl; apply in_or_app; now left).
+    assert (HinB : In (c, i, h) B) by (apply Hincl; apply in_or_app; right; now left).
+    pose proof (nodup_fresh P (c, i, h) R Hnd') as Hfresh. unfold fb_c, fb_i in Hfresh. simpl in Hfresh.
+    destruct (step_bucket c P (bucket_or_new s c) (epoch s) i h HP (S c) HinB Hfresh) as (b' & d & err & Hput & Herr & Hinv).
+    simpl. unfold to_blob at 1. unfold fb_c, fb_i, fb_h. simpl. rewrite Hput.
+    assert (Happ : (P ++ [(c, i, h)]) ++ R = P ++ (c, i, h) :: R) by (rewrite <- app_assoc; reflexivity).
+    destruct Herr as [->|[-> ->]].
+    + destruct (IH (P ++ [(c, i, h)]) (set_bucket s c b')) as (s' & H1 & H2 & H3).
+      * eapply sinv_step; eauto. intros c'. destruct (N.eq_dec c' c) as [->|Hne]; [apply bon_set_eq | now apply bon_set_ne].
+      * now rewrite Happ.
+      * now rewrite Happ.
+      * exists s'. rewrite Happ in H2. auto.
+    + simpl.
+      destruct (IH (P ++ [(c, i, h)]) (match bucket s c, objs (bucket_or_new s c) with
+                                        | None, [] => s
+                                        | _, _ => set_bucket s c (bucket_or_new s c)
+                                        end)) as (s' & H1 & H2 & H3).
+      * eapply sinv_step; eauto. intros c'. rewrite skip_state. destruct (N.eq_dec c' c) as [->|Hne]; reflexivity.
+      * now rewrite Happ.
+      * now rewrite Happ.
+      * exists s'. rewrite Happ in H2. rewrite skip_epoch in H3. auto.
+Qed.
+
+(* ---------------------------------------------------------------- statuses of the rebuilt bucket *)
+Section Final.
+Variables (c : cid) (P : list fblob) (b : cstate) (q : N).
+Hypothesis Hmem : forall fb, In fb P <-> In fb B.
+Hypothesis I : inv c P b.
+Hypothesis Hexp : no_tomb_exp q B = true.
+
+Let HP : incl P B.
+Proof. intros x Hx. now apply Hmem. Qed.
+
+Lemma tomb_P_B x : tomb_in P c x = tomb_in B c x.
+Proof.
+  apply eq_true_iff_eq. rewrite !tomb_in_iff.
+  split; intros (i & h & Hin & H); exists i, h; (split; [now apply Hmem | exact H]).
+Qed.
+
+Lemma fin_tombstoned x : tombstoned b x = tomb_in B c x.
+Proof. rewrite (inv_tombstoned c P b I). apply tomb_P_B. Qed.
+Lemma fin_marked x : marked b x = tomb_in B c x.
+Proof. rewrite (inv_marked c P b I). apply tomb_P_B. Qed.
+
+Lemma fin_expired_stored l en : In (l, en) (objs b) ->
+  expired b q l = match h_exp (e_hdr en) with Some x => x <? q | None => false end.
+Proof.
+  intros Hin. unfold expired. now rewrite (sm_get_in (objs b) l en (proj1 (i_wf _ _ _ I)) Hin).
+Qed.
+
+Lemma fin_live_lock a : live_lock b q a = live_lock_in B q c a.
+Proof.
+  apply eq_true_iff_eq. unfold live_lock, live_lock_in. rewrite !existsb_exists. split.
+  - intros [[l en] [Hin H]]. simpl in H. apply andb_true_iff in H as [H H3]. apply andb_true_iff in H as [H1 H2].
+    unfold is_type in H1. apply otype_eqb_eq in H1. unfold targets in H2. apply opt_eqb_some in H2.
+    exists (c, l, e_hdr en). split; [apply HP; now apply (i_from _ _ _ I)|].
+    rewrite fb_targets_self, H1, H2. simpl. rewrite N.eqb_refl. simpl.
+    unfold lock_live in H3. apply andb_true_iff in H3 as [H3 _]. apply andb_true_iff in H3 as [H3 _].
+    rewrite (fin_expired_stored l en Hin) in H3. unfold fb_h. simpl. exact H3.
+  - intros [[[c' l] h] [Hin H]]. apply andb_true_iff in H as [H1 H2].
+    unfold fb_targets, fb_c, fb_h in H1. simpl in H1. apply andb_true_iff in H1 as [H1 Ha]. apply andb_true_iff in H1 as [Hc Ht].
+    apply N.eqb_eq in Hc. subst c'. apply otype_eqb_eq in Ht. apply opt_eqb_some in Ha.
+    destruct (i_stored _ _ _ I l h (proj2 (Hmem _) Hin) (or_intror (or_introl Ht))) as [en [Hs He]].
+    exists (l, en). split; auto. simpl. unfold is_type, targets. rewrite He, Ht, Ha. simpl. rewrite N.eqb_refl. simpl.
+    unfold lock_live. rewrite (fin_expired_stored l en Hs), He. unfold fb_h in H2. simpl in H2. rewrite H2. simpl.
+    assert (NT : tomb_in B c l = false).
+    { destruct (tomb_in B c l) eqn:E; [|reflexivity]. destruct (tomb_target c l E) as [_ NT]. destruct (NT h Hin). congruence. }
+    now rewrite fin_tombstoned, fin_marked, NT.
+Qed.
+
+Lemma fin_expired a : expired b q a = expired_in B q c a.
+Proof.
+  unfold expired_in. destruct (sm_get a (objs b)) as [en|] eqn:E.
+  - apply sm_get_some_in in E. rewrite (fin_expired_stored a en E).
+    assert (Hin : In (c, a, e_hdr en) B) by (apply HP; now apply (i_from _ _ _ I)).
+    pose proof (nodup_find B Hnd (c, a, e_hdr en) Hin) as F. unfold fb_c, fb_i in F. simpl in F. rewrite F. reflexivity.
+  - unfold expired. rewrite E. destruct (find (fb_is c a) B) as [fb|] eqn:F; [|reflexivity].
+    apply find_some in F as [Hin Hfb]. apply fb_is_iff in Hfb as [Hc Hi]. destruct fb as [[c' a'] h].
+    unfold fb_c, fb_i in Hc, Hi. simpl in Hc, Hi. subst c' a'. unfold fb_h. simpl.
+    destruct (tomb_in B c a) eqn:T.
+    + unfold no_tomb_exp in Hexp. rewrite forallb_forall in Hexp. specialize (Hexp _ Hin).
+      unfold fb_c, fb_i, fb_h in Hexp. simpl in Hexp. rewrite T in Hexp. simpl in Hexp.
+      apply negb_true_iff in Hexp. symmetry. exact Hexp.
+    + destruct (i_stored _ _ _ I a h (proj2 (Hmem _) Hin) (or_intror (or_intror T))) as [en [Hs _]].
+      rewrite (sm_get_in (objs b) a en (proj1 (i_wf _ _ _ I)) Hs) in E. discriminate.
+Qed.
+
+Lemma fin_status a : status_in b q a = status_of_blobs q B c a.
+Proof.
+  unfold status_in. rewrite (i_cgc _ _ _ I).
+  rewrite status_k_noparent.
+  - unfold direct, status_of_blobs. now rewrite fin_live_lock, fin_marked, fin_tombstoned, fin_expired.
+  - rewrite <- find_parent_spec. apply flat_find_parent; [apply (i_wf _ _ _ I) | apply (inv_flatb c P b HP I)].
+Qed.
+End Final.
 End BlobSet.
+
+(* ---------------------------------------------------------------- theorems *)
+Lemma nodup_addr_NoDup l : nodup_addr l = true -> NoDup (map addr l).
+Proof.
+  induction l as [|a r IH]; intros H; simpl; [constructor|].
+  simpl in H. apply andb_true_iff in H as [H1 H2]. constructor; [|now apply IH].
+  intros Hin. apply in_map_iff in Hin as [fb [E Hfb]]. apply negb_true_iff in H1.
+  assert (X : existsb (fb_is (fb_c a) (fb_i a)) r = true).
+  { apply existsb_exists. exists fb. split; auto. unfold addr in E. inversion E. unfold fb_is. now rewrite !N.eqb_refl. }
+  congruence.
+Qed.
+
+Lemma status_at_bon s q c a : status_at s q c a = status_in (bucket_or_new s c) q a.
+Proof.
+  unfold status_at, bucket_or_new, bucket. destruct (sm_get c (cnrs s)); [reflexivity|].
+  unfold status_in. assert (H : cgc cstate0 = false) by reflexivity. rewrite H.
+  rewrite status_k_noparent; reflexivity.
+Qed.
+
+Theorem flat_status bs e q B order :
+  (0 < bs)%nat -> flat_ok B = true -> no_tomb_exp q B = true -> Permutation order B ->
+  snd (resync_bs bs e (map to_blob order)) = true /\
+  forall c a, status_at (fst (resync_bs bs e (map to_blob order))) q c a = status_of_blobs q B c a.
+Proof.
+  intros Hbs Hok Hexp Hperm.
+  unfold flat_ok in Hok. apply andb_true_iff in Hok as [Hok Hpair]. apply andb_true_iff in Hok as [Hok Hnd].
+  apply andb_true_iff in Hok as [Hflat Htgt]. rewrite forallb_forall in Hflat, Htgt.
+  assert (Hincl : incl ([] ++ order) B) by (intros x Hx; simpl in Hx; eapply Permutation_in; eauto).
+  assert (HN : NoDup (map addr ([] ++ order))).
+  { simpl. eapply Permutation_NoDup; [apply Permutation_map; apply Permutation_sym; exact Hperm|]. now apply nodup_addr_NoDup. }
+  destruct (batch_flat B Hflat Htgt Hnd Hpair order [] (reset_state e) (sinv_init B e) Hincl HN) as (s' & H1 & H2 & _).
+  rewrite (batching_irrelevant bs e (map to_blob order) s' Hbs H1). simpl. split; [reflexivity|].
+  intros c a. rewrite status_at_bon.
+  apply (fin_status B Hflat Htgt Hnd Hpair c order (bucket_or_new s' c) q); auto.
+  intros fb. split; intros H; [eapply Permutation_in; eauto | eapply Permutation_in; [apply Permutation_sym|]; eauto].
+Qed.
